@@ -149,6 +149,12 @@ def cp_oracle(ctx, case, limit=200000):
     edges = case["edges"]
     lat = {l["no"]: l["lat"] for l in case["lines"]}
     loadw = {u: w for (u, ld, v), w in edges.items() if ld}
+    lat_wo = {l["no"]: l["lat_wo"] for l in case["lines"]}
+    for u, w in loadw.items():
+        if abs(w - (lat[u] - lat_wo[u])) > 1e-12:
+            ctx.violation("load-stage-weight", "line %d: the separately modelled load stage weighs %s, but latency %s - latency without load %s = %s "
+                          "(the load stage would be counted more than once along a chain)" % (u, w, lat[u], lat_wo[u], lat[u] - lat_wo[u]),
+                          {"isa": case["isa"], "text": case["text"], "flagdeps": case["flagdeps"], "db": case.get("db"), "origin": case.get("origin")})
     succ = {}
     for (u, ld, v), w in edges.items():
         if not ld:
